@@ -6,6 +6,16 @@ BASE = json.load(open("/root/.vp/BASELINE.json"))["cmd"] if os.path.exists("/roo
     "cd /repo && /venv/bin/python -m pytest -ra -q -p no:cacheprovider --timeout=900 --continue-on-collection-errors"
 
 CLAIMED = {
+ "C11": dict(
+    technique="static analysis: interprocedural alias/effect analysis through attributes and containers (operands not written), return-shape rules, CFG fall-through rule for refusal paths, lost-update (swap without temporary) rule, convex/concave mirror-symmetry of statements",
+    text="Static over the expression classes of modeling.py: no operator or term-merging helper writes in place to an object reachable from an argument other than self; regular operators never return an operand and in-place forms return self; every path through an operator returns a value or raises; attributes recomputed from each other go through a temporary; the convex and concave sides of every method are mirror-image code (cvx<->ccv, max<->min). It does NOT decide that value() equals the formula or that len() follows the broadcasting rule.",
+    note="Trusted: CPython ast, sa/effects.py, sa/pyfront.py; cvxopt matrix operators and two-argument indexing return new objects.",
+    ref="DESIGN.md section 3, C11"),
+ "C12": dict(
+    technique="static analysis: block-offset partition algebra (slice()/running counters), sibling-loop isomorphism under renaming (G-block ~ A-block), allocated-row-count rule for linear indices, map-completeness and back-substitution shape rules, mirror-symmetry of sum/max/min",
+    text="Static over constraint._aslinearineq, op._inmatrixform, op.solve: vslc/islc/eslc are exact partitions and c,G,h,A,b are allocated with their totals; the G-block and A-block assembly loops are identical up to renaming and linear indices use the allocated row count; vmap/mmap cover every original variable, linear inequality, PWL inequality (all pieces) and equality; solve copies status/x/z/y and back-substitutes; recursive epigraph results are fully consumed; sum/max/min and the expression methods treat convex and concave terms symmetrically (broadcast scaling). It does NOT decide that the assembled LP is equivalent to the PWL problem nor dual optimality of the multipliers.",
+    note="Trusted: CPython ast, sa/offsets.py; solvers.lp (C01) and the expression operators (C11).",
+    ref="DESIGN.md section 3, C12"),
  "C14": dict(
     technique="static analysis: width-interval abstract interpretation of the writer's string building against the fixed MPS field table, reader slice/vocabulary extraction, loop-domain rule for row labels, constant propagation through the reader's RANGES/BOUNDS decision code over a finite abstract input set",
     text="Static over op.tofile/op.fromfile: every name and number field of every record kind the writer emits sits exactly on a fixed-format MPS field and the reader slices exactly those fields; headers and row/bound codes written are handled by the reader and unknown codes raise; row labels in COLUMNS/RHS range over the rows of the constraint they label; constant propagation through the reader's RANGES and BOUNDS code gives, for every row type x sign of R and every bound type, exactly the interval the MPS format defines; tofile refuses non-LPs before opening the file. It does NOT decide 6-digit rounding, collisions of truncated names or equality of solve results.",
